@@ -12,6 +12,7 @@ import RbV.Thm.GenLimits
 import RbV.Thm.GenTbCodes
 import RbV.Thm.GenSrcPwTypes
 import RbV.Thm.GenSrcPwModes
+import RbV.Thm.GenSrcPwCustom
 /-!
 # C01 — pairwise alignment is optimal and its reported path achieves the reported score
 
@@ -630,6 +631,77 @@ example : RbV.Gen.SrcPwModes.semiglobal_ probeCustom probeAligner [1] [2] =
     .ok ({ (default : Alignment) with score := minScore * 3, mode := .Semiglobal }, { probeAligner with Lx := [1] }) := by decide
 example : RbV.Gen.SrcPwModes.local_ probeCustom probeAligner [1] [2] =
     .ok ({ (default : Alignment) with score := 0, mode := .Local }, { probeAligner with Lx := [1] }) := by decide
+
+/-- **One cell of the main loop of `Aligner::custom` (translated text) = the checked-`i32` mirror, modulo ties.**
+`RbV.Gen.SrcPwCustom.custom_for5` is the body of `for i in 1..m + 1` as translated from the text; its three tie-breaks are
+parameters (`T`).  On every aligner state whose vectors have the lengths `custom` gives them (`Dims`), for `1 ≤ i ≤ m`,
+`1 ≤ j ≤ n`, `S[curr][i]` reset to `MIN_SCORE` (unless `i = m`) and valid codes `tsL`, `tsU` in the S fields of the cells
+`(i−1, j)`, `(i, j−1)`: the body panics exactly when `stepJT T` is `none` (an `i32` overflow) and otherwise writes exactly that
+row — `S/I/D[curr][i]`, the register `S[curr][m]`, `Sn[i]`, `Ly[i]`, `Lx[j]`, the bit-packed cell `(i, j)` — and nothing else
+(`writeRow`).  `stepJT` is `stepJC` of `Model/PairwiseFillI32.lean` with the tie-breaks as parameters. -/
+theorem cell_update_source_eq_model_mod_ties (w : Nat → Nat → Int) (T : GenSrcPwCustom.Ties)
+    (a : RbV.Gen.SrcPwTypes.Aligner) (x : List Nat) (m n i j q : Nat) (xclip : Int)
+    (tsL tsU : RbV.Model.PairwiseFill.Tb) (hd : GenSrcPwCustom.Dims a m n) (hx : x.length = m) (hi : 1 ≤ i) (him : i ≤ m)
+    (hj : 1 ≤ j) (hjn : j ≤ n) (hreset : i ≠ m → (a.S.getD (j % 2) []).getD i 0 = minScore)
+    (hL : GenSrcPwCustom.SIs a (i - 1) j tsL) (hU : GenSrcPwCustom.SIs a i (j - 1) tsU) :
+    RbV.Gen.SrcPwCustom.custom_for5 w T.iT T.dT T.snT x m n j (j % 2) (1 - j % 2) q xclip a i =
+      GenSrcPwCustom.ofOpt (GenSrcPwCustom.stepJT T (GenSrcPwCustom.scOf w a) (GenSrcPwCustom.clOf a) m n j i (x.getD (i - 1) 0) q
+          xclip (GenSrcPwCustom.rowPrev1 a (1 - j % 2) (i - 1)) (GenSrcPwCustom.rowPrev a (1 - j % 2) i tsU)
+          (GenSrcPwCustom.rowCur a m j (j % 2) (i - 1) tsL)) >>= fun r' =>
+        Res.ok (GenSrcPwCustom.writeRow a m (j % 2) i j r') :=
+  GenSrcPwCustom.cell_update_mod_ties w T a x m n i j q xclip tsL tsU hd hx hi him hj hjn hreset hL hU
+
+/-- … and for tie-breaks that behave like the pinned text (strict `>` at all three sites) the row is **`stepJC`** of the
+checked-`i32` mirror itself.  Stated for an abstract `T` (so that a property-preserving change of a tie-break in the text —
+seeded C01-H1, C01-H2 — does not falsify it; what the text's own tests must satisfy is `tie_breaks_source_admissible`). -/
+theorem cell_update_source_eq_model (w : Nat → Nat → Int) (T : GenSrcPwCustom.Ties) (hT : T = GenSrcPwCustom.pinned)
+    (a : RbV.Gen.SrcPwTypes.Aligner) (x y : List Nat) (i j : Nat) (xclip : Int) (prev : List RbV.Model.PairwiseFill.Row)
+    (r : RbV.Model.PairwiseFill.Row) (hd : GenSrcPwCustom.Dims a x.length y.length) (hi : 1 ≤ i) (him : i ≤ x.length)
+    (hj : 1 ≤ j) (hjn : j ≤ y.length) (hreset : i ≠ x.length → (a.S.getD (j % 2) []).getD i 0 = minScore)
+    (hL : GenSrcPwCustom.SIs a (i - 1) j r.t.ts) (hU : GenSrcPwCustom.SIs a i (j - 1) (prev.getD i default).t.ts)
+    (hr : GenSrcPwCustom.rowCur a x.length j (j % 2) (i - 1) r.t.ts = r)
+    (hp1 : GenSrcPwCustom.rowPrev1 a (1 - j % 2) (i - 1) = prev.getD (i - 1) default)
+    (hp : GenSrcPwCustom.rowPrev a (1 - j % 2) i (prev.getD i default).t.ts = prev.getD i default) :
+    RbV.Gen.SrcPwCustom.custom_for5 w T.iT T.dT T.snT x x.length y.length j (j % 2) (1 - j % 2) (y.getD (j - 1) 0) xclip a i =
+      GenSrcPwCustom.ofOpt (RbV.Model.PairwiseFill.stepJC (GenSrcPwCustom.scOf w a) (GenSrcPwCustom.clOf a) x y j prev xclip i r)
+        >>= fun r' => Res.ok (GenSrcPwCustom.writeRow a x.length (j % 2) i j r') := by
+  subst hT
+  rw [GenSrcPwCustom.cell_update_mod_ties w GenSrcPwCustom.pinned a x x.length y.length i j (y.getD (j - 1) 0) xclip r.t.ts
+    (prev.getD i default).t.ts hd rfl hi him hj hjn hreset hL hU, hr, hp1, hp, GenSrcPwCustom.stepJT_pinned]
+
+/-- **The tie-breaks found in the text are admissible** (true when strictly greater, false when strictly smaller — `>` or
+`>=` in either operand order); a test that is neither (e.g. `<`, or another operand) fails here. -/
+theorem tie_breaks_source_admissible : GenSrcPwCustom.TiesOk GenSrcPwCustom.srcTies := GenSrcPwCustom.srcTies_ok
+
+/-- what the written cell reads back: the three 4-bit fields of `cellOf ts ti td` are the codes of the three moves -/
+theorem cell_update_source_cell_reads (ts ti td : RbV.Model.PairwiseFill.Tb) :
+    RbV.TbCell.getBits (GenSrcPwCustom.cellOf ts ti td).v RbV.Gen.TbCodes.sPos = GenSrcPwCustom.enc ts ∧
+    RbV.TbCell.getBits (GenSrcPwCustom.cellOf ts ti td).v RbV.Gen.TbCodes.iPos = GenSrcPwCustom.enc ti ∧
+    RbV.TbCell.getBits (GenSrcPwCustom.cellOf ts ti td).v RbV.Gen.TbCodes.dPos = GenSrcPwCustom.enc td :=
+  GenSrcPwCustom.cellOf_reads ts ti td
+
+-- non-vacuity / sampled tie of the *whole* translated function: the text of `Aligner::custom` (`Gen/SrcPwCustom.lean`),
+-- run by the kernel on a fresh aligner, returns exactly what the checked-`i32` mirror `customC` returns
+def srcAligner (go ge xp xs yp ys : Int) : RbV.Gen.SrcPwTypes.Aligner :=
+  ⟨[[], []], [[], []], [[], []], [], [], [], ⟨0, 0, []⟩, ⟨go, ge, none, xp, xs, yp, ys⟩⟩
+def srcOp : AlignmentOperation → AOp
+  | .Match => .core .mat | .Subst => .core .sub | .Ins => .core .ins | .Del => .core .del
+  | .Xclip n => .xclip n | .Yclip n => .yclip n
+def srcRun (w : Nat → Nat → Int) (go ge xp xs yp ys : Int) (x y : List Nat) : RbV.Model.PairwiseFill.Outcome :=
+  match RbV.Gen.SrcPwCustom.custom w RbV.Gen.SrcPwCustom.custom_iTie RbV.Gen.SrcPwCustom.custom_dTie
+      RbV.Gen.SrcPwCustom.custom_snTie (srcAligner go ge xp xs yp ys) x y (2 * (x.length + y.length) + 16) with
+  | .ok (al, _) => .done ⟨al.score, al.xstart, al.xend, al.ystart, al.yend, al.xlen, al.ylen, al.operations.map srcOp⟩
+  | .panic => .overflow
+  | .fuel => .noTermination
+example : srcRun scU.w (-5) (-1) (-1) (-2) (-3) (-1) [0, 1, 1, 0] [1, 1, 2] =
+    RbV.Model.PairwiseFill.customC scU ⟨-1, -2, -3, -1⟩ [0, 1, 1, 0] [1, 1, 2] := by decide +kernel
+example : srcRun scU.w (-5) (-1) minScore minScore 0 0 [1, 1] [0, 1, 1, 0] =
+    RbV.Model.PairwiseFill.customC scU clSemi [1, 1] [0, 1, 1, 0] := by decide +kernel
+example : srcRun scU.w (-5) (-1) minScore minScore minScore minScore [] [0] =
+    RbV.Model.PairwiseFill.customC scU clGlobal [] [0] := by decide +kernel
+-- an `i32` overflow of the text is the `overflow` of the mirror
+example : srcRun (fun _ _ => 2000000000) (-5) (-1) 0 0 0 0 [0, 0] [0, 0] = .overflow ∧
+    RbV.Model.PairwiseFill.customC ⟨fun _ _ => 2000000000, -5, -1⟩ clLocal [0, 0] [0, 0] = .overflow := by decide +kernel
 
 end SourceText
 
